@@ -63,7 +63,10 @@ func loadOrMakeIdent(dir, role string, bits int) (*ident, error) {
 			if blk, _ := pem.Decode(kb); blk != nil {
 				if k, err := x509.ParsePKCS1PrivateKey(blk.Bytes); err == nil && k.N.BitLen() == bits {
 					if c, err := x509.ParseCertificate(cb); err == nil && time.Now().Before(c.NotAfter.Add(-time.Hour)) {
-						return &ident{k, cb}, nil
+						// the cached pair must belong together (two processes may have generated it at the same time)
+						if pk, ok := c.PublicKey.(*rsa.PublicKey); ok && pk.N.Cmp(k.N) == 0 {
+							return &ident{k, cb}, nil
+						}
 					}
 				}
 			}
